@@ -16,8 +16,12 @@ def check(pid):
     return deco
 
 
+# thorough tiers that finished in well under two minutes are deepened by these factors
+THOROUGH_DEPTH = {"C01": 4, "C02": 4, "C04": 4, "C05": 2, "C06": 2, "C09": 3, "C10": 4, "C13": 6, "C14": 3, "C15": 4, "C16": 5, "C17": 5, "C19": 5, "C11": 2, "C03": 2}
+
+
 def n(out, quick, thorough):
-    v = quick if out.tier == "quick" else thorough
+    v = quick if out.tier == "quick" else thorough * THOROUGH_DEPTH.get(out.prop, 1)
     return max(1, int(v * getattr(out, "scale", 1.0)))
 
 
